@@ -123,3 +123,52 @@ def implies_ge(facts, x, y):
                 if o == 'Ne' and q[1] == 0 and y[1] <= 1:
                     return True
     return False
+
+
+def root_local(body, local, depth=10):
+    """follow single-definition whole-local copies / moves back to the local that first holds the value"""
+    cur = local
+    for _ in range(depth):
+        ds = body.defs().get(cur, [])
+        if len(ds) != 1 or ds[0][0] != 'stmt':
+            return cur
+        rv = ds[0][3]['rv']
+        p = op_place(rv['op']) if rv['k'] == 'use' else None
+        if p is None or p['p']:
+            return cur
+        cur = p['l']
+    return cur
+
+
+def implies_ge_at_callers(mir, body, x, y):
+    """x >= y for a private helper whose operands are constants or places rooted in its parameters: translate the operands to
+    every in-crate call site and ask the facts that dominate the call.  False when there is no call site."""
+    import re
+    if body.kind == 'closure':
+        return False
+    sites = mir.callers_index().get(body.nid, [])
+    if not sites:
+        return False
+
+    def translate(k, cb, ct):
+        if k[0] in ('const', 'constx'):
+            return k
+        if k[0] == 'place':
+            m = re.match(r'_(\d+)(.*)$', k[1])
+            if not m:
+                return None
+            n = int(m.group(1))
+            if not (1 <= n <= body.d['argc']) or body.defs().get(n) or n - 1 >= len(ct['args']):
+                return None
+            ap = op_place(ct['args'][n - 1])
+            if ap is None or ap['p']:
+                return None
+            return ('place', '_%d%s' % (root_local(cb, ap['l']), m.group(2)))
+        return None
+    for cb, cbb, ct in sites:
+        tx, ty = translate(x, cb, ct), translate(y, cb, ct)
+        if tx is None or ty is None:
+            return False
+        if not implies_ge(dominating_facts(cb, cbb), tx, ty):
+            return False
+    return True
